@@ -60,7 +60,7 @@ def hist_cases(draw, tier):
     tval = st.one_of(st.sampled_from(special), val, st.sampled_from(inside))
     test = draw(st.lists(st.lists(tval, max_size=12), min_size=1, max_size=5))
     return {"train": train, "test": test, "n_components": draw(st.integers(2, 10)), "strategy": strategy,
-            "range": [lo, hi], "outlier_bins": draw(st.booleans()), "as_array": draw(st.booleans())}
+            "range": [lo, hi], "outlier_bins": draw(st.booleans()), "as_array": draw(st.booleans()), "pre_use": draw(st.booleans())}
 
 
 def check_hist(case):
@@ -77,6 +77,14 @@ def check_hist(case):
         train[0] = [0]
     est = L["H"](n_components=case["n_components"], strategy=case["strategy"], absolute_range=(lo, hi),
                  append_outlier_bins=case["outlier_bins"])
+    if case.get("pre_use"):
+        # history: the same estimator object was fitted on, and used with, the transform sequences before
+        r.label("previously-used-estimator")
+        other = [conv(s_) for s_ in case["test"] if len(s_) >= 1]
+        if len({v for s_ in case["test"] for v in s_ if lo < v < hi}) >= 2 and other:
+            sp_, _o = call(est.fit, other)
+            if sp_ == "ok":
+                call(est.transform, other)
     s, out = call(est.fit, train)
     if s == "exc":
         r.fail(exc_kind(out), site + ".fit", exc_detail(out))
@@ -158,7 +166,7 @@ def kde_cases(draw, tier):
             "n_components": draw(st.integers(2, 30)),
             "kernel": draw(st.sampled_from(["gaussian", "gaussian", "tophat", "epanechnikov"])),
             "grid": draw(st.sampled_from(["uniform", "density"])),
-            "perm_seed": draw(st.integers(0, 10 ** 6))}
+            "perm_seed": draw(st.integers(0, 10 ** 6)), "pre_use": draw(st.booleans()) if bw is not None else False}
 
 
 def check_kde(case):
@@ -172,6 +180,11 @@ def check_kde(case):
     mk = lambda: L["K"](bandwidth=case["bandwidth"], n_components=case["n_components"], kernel=case["kernel"],
                         evaluation_grid_strategy=case["grid"])
     est = mk()
+    if case.get("pre_use"):
+        r.label("previously-used-estimator")
+        sp_, _o = call(est.fit, arr(case["train2"]))
+        if sp_ == "ok":
+            call(est.transform, arr(case["test"]))
     s, out = call(est.fit, arr(case["train"]))
     if s == "exc":
         r.fail(exc_kind(out), site + ".fit", exc_detail(out))
